@@ -580,6 +580,12 @@ fn sequences(alphabet: &[(usize, bool)], max: usize) -> Vec<Vec<(usize, bool)>> 
 /// All histories with `adds.len()` variants, at most `adds[k]` additions in variant k, any removal
 /// subset, over `alphabet`, closing with each of `strategies`.
 pub fn histories(alphabet: &[(usize, bool)], adds: &[usize], strategies: &[u8], prefix: &str) -> Vec<DefSpec> {
+    let per_level: Vec<&[u8]> = adds.iter().map(|_| strategies).collect();
+    histories_mixed(alphabet, adds, &per_level, prefix)
+}
+
+/// The same with its own strategy menu for every variant (`strategies[k]` closes variant k).
+pub fn histories_mixed(alphabet: &[(usize, bool)], adds: &[usize], strategies: &[&[u8]], prefix: &str) -> Vec<DefSpec> {
     let mut out: Vec<DefSpec> = vec![];
     let mut frontier: Vec<(Vec<DStep>, usize)> = vec![(vec![], 0)];
     for (level, max_add) in adds.iter().enumerate() {
@@ -591,7 +597,7 @@ pub fn histories(alphabet: &[(usize, bool)], adds: &[usize], strategies: &[u8], 
                     if level > 0 && rem.is_empty() && add.is_empty() {
                         continue;
                     }
-                    for &strat in strategies {
+                    for &strat in strategies[level] {
                         let mut h = hist.clone();
                         h.push(DStep { remove: rem.clone(), ghost: false, ghost_late: false, add: add.clone(), strat });
                         next.push((h, live - rem.len() + add.len()));
@@ -699,6 +705,42 @@ pub fn zoo() -> Vec<DefSpec> {
         .collect()
 }
 
+/// Lifetimes: five variants; a subject datum is born in variant `b` and removed in variant `d`, for
+/// every 0 <= b < d <= 4 (so it is carried over by 0 to 3 conversions before the one that removes
+/// it); every other step adds one bystander, which stays to the end. The subject is a droppable
+/// 8-aligned type, and for the longer lifetimes also a plain type that may stay uninitialised.
+pub fn lifetimes() -> Vec<DefSpec> {
+    let bystanders = [("Pod4", true), ("Own3", false), ("Pod2", true), ("Own8", false), ("OwnZ", false)];
+    let mut out = vec![];
+    for (subject, uninit, min_age, tag) in [("OwnBox", false, 1usize, "o"), ("Pod4", true, 3, "p")] {
+        for b in 0..4usize {
+            for d in (b + 1)..5usize {
+                if d - b < min_age {
+                    continue;
+                }
+                let mut steps = vec![];
+                for s in 0..5usize {
+                    let mut add: Vec<(&str, bool)> = vec![];
+                    let mut remove = vec![];
+                    if s == b {
+                        add.push((subject, uninit));
+                    } else if s != d || d % 2 == 1 {
+                        add.push(bystanders[s]);
+                    }
+                    if s == d {
+                        // nothing else was removed before: the subject's position among the live data,
+                        // sorted by id, is the number of data added before it
+                        remove.push(b);
+                    }
+                    steps.push(step(&remove, &add, 0));
+                }
+                out.push(DefSpec { name: format!("life{}{}{}", tag, b, d), steps, reuse_names: false });
+            }
+        }
+    }
+    out
+}
+
 /// The reduced family interpreted by Miri: every instrumented type, re-used bytes, a re-used
 /// name, zero-size data, odd sizes, an over-aligned type, a ghost, three strategies.
 pub fn miri_family() -> Vec<DefSpec> {
@@ -715,11 +757,15 @@ pub fn family(tier: &str) -> Vec<DefSpec> {
         return miri_family();
     }
     let mut v = zoo();
+    v.extend(lifetimes());
     // a 4-aligned plain type that may stay uninitialised, an 8-aligned droppable type (padding
     // gaps, hence zero-size data sharing an offset with a sized datum) and a droppable zero-size type
     let a3 = [(type_index("Pod4"), true), (type_index("OwnBox"), false), (type_index("OwnZ"), false)];
+    let b3 = [(type_index("Pod4"), true), (type_index("Pod8"), true), (type_index("Own3"), false)];
     match tier {
         "thorough" => {
+            v.extend(histories_mixed(&b3, &[2, 1], &[&[2], &[0]], "h3m"));
+            v.extend(histories_mixed(&b3, &[2, 2], &[&[1], &[0]], "h3n"));
             // about 1 600 definitions (four builds of them must fit the disk)
             let a4 = [(type_index("Pod4"), true), (type_index("OwnBox"), false), (type_index("OwnZ"), false), (type_index("PodZ"), true)];
             let a5 = [
@@ -739,6 +785,10 @@ pub fn family(tier: &str) -> Vec<DefSpec> {
         _ => {
             v.extend(histories(&a3, &[2, 1], &[0], "h3q"));
             v.extend(histories(&a3, &[1, 2], &[0], "h3r"));
+            // the converse mix - two plain types of different alignment that may stay uninitialised
+            // and a small unaligned droppable type - first closed without filling the padding
+            // (append_data), then with `simple`, which packs later data into that padding
+            v.extend(histories_mixed(&b3, &[2, 1], &[&[2], &[0]], "h3m"));
         }
     }
     v
